@@ -62,6 +62,8 @@ type FuncContract struct {
 	Events   bool
 	FreshResult bool
 	MaxPaths int
+	Role     string // goroutine role this function runs in (guard ... role r)
+	Phase    string // life-cycle phase in which the function is called (guard ... readphase p); an assumption, listed in the evidence
 }
 
 type Lemma struct {
@@ -80,6 +82,8 @@ type Contracts struct {
 	SpecCode []string // raw Go source blocks
 	Lemmas   []*Lemma
 	Guards   []GuardDecl
+	Shared   []string    // struct types all of whose fields must be classified by a guard declaration (C10)
+	GuardCalls []GuardDecl // Field = T.f, Kind = method name, Arg = lock: calling that method on the interface stored in T.f requires the lock
 	Closers  map[string]string // Type.field -> function that alone closes the channel stored there
 	ChanInv  map[string]string // element type -> "nonnil neverclosed"
 	FnTypes  map[string]*FuncContract
@@ -110,7 +114,7 @@ func splitTags(s string) []string {
 
 var keywords = map[string]bool{"func": true, "mode": true, "props": true, "inline": true, "requires": true, "relies": true, "ovfwrap": true, "let": true,
 	"assigns": true, "ensures": true, "loop": true, "spec": true, "end": true, "lemma": true, "fntype": true,
-	"guard": true, "chan": true, "closer": true, "trusted": true, "safe": true, "shape": true, "note": true, "pure": true, "events": true, "freshresult": true, "maxpaths": true}
+	"guard": true, "guardcall": true, "shared": true, "role": true, "phase": true, "chan": true, "closer": true, "trusted": true, "safe": true, "shape": true, "note": true, "pure": true, "events": true, "freshresult": true, "maxpaths": true}
 
 // contractLines extracts the //@ lines of a file together with positions.
 func contractLines(fset interface{ PositionString(p ast.Node) string }, f *ast.File, posOf func(*ast.Comment) string) (lines []string, poss []string) {
@@ -254,6 +258,16 @@ func ParseContracts(lines, poss []string) (*Contracts, error) {
 			}
 			cs.ChanInv[f[0]] = strings.Join(f[1:], " ")
 			cur = nil
+		case "shared":
+			cs.Shared = append(cs.Shared, strings.Fields(rest)...)
+			cur = nil
+		case "guardcall":
+			f := strings.Fields(rest)
+			if len(f) != 4 || f[2] != "by" {
+				return nil, fmt.Errorf("%s: malformed guardcall (want: guardcall T.f Method by mu)", pos)
+			}
+			cs.GuardCalls = append(cs.GuardCalls, GuardDecl{Field: f[0], Kind: f[1], Arg: f[3], Line: pos})
+			cur = nil
 		case "guard":
 			f := strings.Fields(rest)
 			if len(f) < 2 {
@@ -275,6 +289,10 @@ func ParseContracts(lines, poss []string) (*Contracts, error) {
 				cur.Props = splitTags(rest)
 			case "safe":
 				cur.SafeTags = splitTags(rest)
+			case "role":
+				cur.Role = strings.TrimSpace(rest)
+			case "phase":
+				cur.Phase = strings.TrimSpace(rest)
 			case "inline":
 				cur.Inline = true
 			case "pure":
